@@ -273,6 +273,36 @@ def c01(tier):
     return rep
 
 
+def _sibling(fn, pid, tier):
+    """evaluate a sibling property's rules into a scratch report (not written anywhere)"""
+    return fn(tier)
+
+
+def with_shared(base_fn, shares):
+    """shares: list of (sibling check function, {sibling rule id: new id}, reason)"""
+    def run_(tier):
+        rep = base_fn(tier)
+        for sib, mapping, why in shares:
+            other = sib(tier)
+            rep.adopt(other, mapping, why)
+        return rep
+    return run_
+
+
+_c01, _c02, _c04, _c05, _c06, _c07, _c08, _c16 = c01, c02, c04, c05, c06, c07, c08, c16
+c01 = with_shared(_c01, [(c03, {'C03.f': 'C01.h'}, 'a call binds the record of the routine registered under that name; the latest definition is registered by assignment')])
+c02 = with_shared(_c02, [(c15, {'C15.I4': 'C02.g', 'C15.I6': 'C02.g2'}, 'scanning terminates: no hang on include cycles'),
+                         (c20, {'C20.A3': 'C02.h'}, 'no undefined arithmetic inside compile()')])
+c04 = with_shared(_c04, [(c20, {'C20.A2': 'C04.f', 'C20.A3': 'C04.f2'}, 'every literal that reaches an instruction is range-checked'),
+                         (c14, {'C14.L2': 'C04.g'}, 'the terminals have their documented lexical form')])
+c05 = with_shared(_c05, [(c08, {'C08.a': 'C05.f', 'C08.b': 'C05.f2', 'C08.c': 'C05.f3'}, 'the sites the VM rewrites are exactly the POTENTIAL_BREAK instructions the generator listed')])
+c06 = with_shared(_c06, [(_c05, {'C05.b': 'C06.f'}, 'break handlers advance by exactly one instruction, so no site is skipped and the location lookup finds the site just passed')])
+c07 = with_shared(_c07, [(c08, {'C08.a': 'C07.i'}, 'a site is created (and listed) on every call of breakpoint()')])
+c08 = with_shared(_c08, [(_c06, {'C06.b': 'C08.f', 'C06.c': 'C08.f2'}, 'the VM never adds a location: enable/clear only touch listed locations'),
+                         (_c05, {'C05.a': 'C08.f3'}, 'the VM writes only opcodes at listed sites')])
+c16 = with_shared(_c16, [(c17, {'C17.Z1': 'C16.O4'}, 'a reset machine has no activations, so the activation bound also holds across resets')])
+
+
 CHECKS = {
     'C01': c01,
     'C18': c18,
